@@ -50,6 +50,12 @@ checks = {
     "C15": dict(engine="gosched", cat="model_checking", tech="stateless exhaustive exploration of all interleavings (unbounded preemptions, history-hash pruning) of the real instrumented pubsub bus + go-lifecycle under a controlled cooperative scheduler; per-execution stream oracle",
                 text="For 20 (quick) / 25 (thorough) client configurations (publishers, subscribers that read / stall / close, concurrent Clone, closers of a subscriber or the bus, all subscriber map-iteration rotations) every interleaving at channel/select/sync granularity is executed on the real code: each subscriber's stream is duplicate-free, gap-free and in publication order, a clone receives exactly what the original had not handed out plus later events, and every Publish/Subscribe/Clone/Close call returns.", ref="6 C15",
                 note="trusted base: interleaving granularity = code between two channel/select/sync operations (unsynchronised accesses are covered only by the supplementary free-running -race pass); the instrumenter's rewrite table; bounded configurations as listed in the evidence"),
+    "C12": dict(engine="gosched", cat="model_checking", tech="exhaustive exploration of all operation sequences (iterative deepening, every timer-firing position) on the live instrumented inventoryService under the controlled scheduler vs. a list reference model + exhaustive small-scope enumeration of the placement decision vs. exact bin packing + exhaustive arithmetic operand-mutation check",
+                text="For 9 (quick) / 12 (thorough) configurations every sequence of reserve/unreserve/status/deployed/not-deployed/refresh/refresh-error up to depth 4 (5-6) is executed on the real service: a grant implies exact packability (commit-scaled, last reported availability, free ports), status reports exactly the granted-unreleased reservations with stable amounts, status queries never change later answers, a release removes exactly one; 11.5M (125M) placement instances: granted => packable; Add/Sub never modify operands.", ref="6 C12",
+                note="trusted base: interleaving granularity of the gosched scheduler; scripted cluster client; budget (0,0) big-step mode (each operation driven to quiescence, timer firings explored)"),
+    "C20": dict(engine="gosched", cat="model_checking", tech="stateless exhaustive exploration (preemption / early-injection budget ladder, history-hash pruning) of the real instrumented manifest service + managers + watchdog under the controlled scheduler; reply channels observed through a scheduler tap",
+                text="For 18 (quick) / 23 (thorough) event menus (lease won x2, submits of valid / invalid / wrong-version manifests from concurrent clients, fetch ok/err, version update, lease closed, deployment closed, watchdog timer, shutdown; every order and every prefix) within the stated budgets: every Submit gets exactly one reply and none hangs; every ManifestReceived announcement happens with a lease held, after the chain data arrived, for a validated manifest, and announcements never go back to an older manifest.", ref="6 C20",
+                note="trusted base: gosched interleaving granularity; scripted chain query / hostname / broadcaster; D11 (shutdown request consumed in checkHostnamesForManifest) is reproduced but breaks no stated clause and is reported as a statistic"),
 }
 
 m = {
